@@ -623,8 +623,9 @@ class PDA:
         """
         pda = PDA()
         for s_from in graph:
-            if isinstance(s_from, str) and s_from.startswith("starting_"):
-                continue
+            # The edges leaving the decoration nodes "starting_..." carry no
+            # label: nothing has to be skipped by name, and a state may be
+            # called "starting_..."
             for s_to in graph[s_from]:
                 for transition in graph[s_from][s_to].values():
                     if "label" in transition:
